@@ -49,6 +49,13 @@ pub fn fill_rom(core: &mut Core, banks: usize) {
       let at = b * 0x4000 + 0x300 + k * 0x40;
       put(rom, at, &[0x3e, ((b + k + 1) % 64) as u8, 0xea, 0x00, 0x21, 0x3e, ((b * 11 + k) & 0xff) as u8, 0x0c, 0xc3, 0x50, 0x01]);
     }
+    // polling loops: blocks that end where they began (LD D,<bank marker> ; INC E ; JR back to the LD), the same address in
+    // every bank with a different marker; the bank is switched from OUTSIDE between two runs of such a block (as an
+    // interrupt handler would do)
+    for k in 0..N_ENTRY {
+      let at = b * 0x4000 + 0x600 + k * 0x40;
+      put(rom, at, &[0x16, ((b * 13 + k) & 0xff) as u8, 0x1c, 0x18, 0xfb]);
+    }
     // first bytes of the bank continue the bank-0 tail block differently per bank
     put(rom, b * 0x4000 + 0x3f0, &[0x3e, b as u8, 0x76]);
   }
@@ -58,7 +65,8 @@ pub fn fill_rom(core: &mut Core, banks: usize) {
 pub fn entry(k: usize) -> u16 {
   match k / N_ENTRY {
     0 => (0x0150 + (k % N_ENTRY) * 0x40) as u16, 1 => (0x1000 + (k % N_ENTRY) * 0x40) as u16,
-    2 => (0x4000 + (k % N_ENTRY) * 0x40) as u16, 3 => 0x3ff8, _ => (0x4300 + (k % N_ENTRY) * 0x40) as u16,
+    2 => (0x4000 + (k % N_ENTRY) * 0x40) as u16, 3 => 0x3ff8, 4 => (0x4300 + (k % N_ENTRY) * 0x40) as u16,
+    _ => (0x4600 + (k % N_ENTRY) * 0x40) as u16,
   }
 }
 
@@ -68,6 +76,13 @@ pub fn gen_hist(rng: &mut Rng, len: usize, banked_switch: bool) -> Vec<String> {
     match rng.below(10) {
       0 | 1 | 2 => {
         if banked_switch && rng.chance(1, 6) { h.push(format!("g{}", 4 * N_ENTRY as u64 + rng.below(N_ENTRY as u64))) }
+        else if rng.chance(1, 5) {
+          // a polling loop in the switchable bank: run it twice, switch the bank from outside, run it again
+          h.push(format!("g{}", 5 * N_ENTRY as u64 + rng.below(N_ENTRY as u64)));
+          h.push(String::from("r")); h.push(String::from("r"));
+          h.push(format!("w{}:{}", 0x2100, *rng.pick(&[1u8, 2, 3, 4, 5, 8, 0x21])));
+          h.push(String::from("r"));
+        }
         else { h.push(format!("g{}", rng.below(3 * N_ENTRY as u64 + 1))) }
       },
       3 => {
